@@ -15,7 +15,10 @@ EXTRA = {"C01a": ["C06"], "C01b": ["C05"], "C02a": ["C04"], "C02b": ["C04"], "C0
          # round 4 (ids ending in g / h)
          "C01g": ["C05"], "C03g": ["C10"], "C03h": ["C08", "C10"], "C04g": ["C02"], "C05h": ["C01"], "C06g": ["C14"], "C06h": ["C05"], "C07g": ["C05"], "C07h": ["C05"],
          "C08h": ["C02"], "C09g": ["C10"], "C10g": ["C05"], "C10h": ["C08"], "C11g": ["C18"], "C12h": ["C18"], "C13g": ["C18"], "C13h": ["C12"], "C14h": ["C06"],
-         "C16h": ["C05", "C07"], "C17g": ["C18"], "C17h": ["C18"]}
+         "C16h": ["C05", "C07"], "C17g": ["C18"], "C17h": ["C18"],
+         # round 5 (ids ending in i / j)
+         "C01i": ["C06"], "C02j": ["C08"], "C03i": ["C10"], "C03j": ["C05"], "C04i": ["C05"], "C05i": ["C08"], "C07i": ["C10"], "C09j": ["C10"], "C12j": ["C17"],
+         "C17j": ["C18"]}
 args = sys.argv[1:]; tier = "quick"
 if "--tier" in args: i = args.index("--tier"); tier = args[i + 1]; del args[i:i + 2]
 ids = args or sorted(os.path.basename(d) for d in glob.glob(ROOT + "/seeded/C*"))
